@@ -19,6 +19,9 @@ type Case struct {
 	Items   []midiref.Item
 	BufSize uint32 // 0 = default 1024
 	Chunks  []live.Chunk
+	// Decoy: an earlier listening on the same port with these (other) options, stopped before
+	// the listening under test starts (listen - stop - listen again)
+	Decoy *live.Opts `json:",omitempty"`
 }
 
 func genCase(t *rapid.T) Case {
@@ -30,6 +33,10 @@ func genCase(t *rapid.T) Case {
 	}
 	c.Items = live.Items(t, buf, 40)
 	c.Chunks = live.Chunking(t, midiref.Serialise(c.Items), 5000)
+	if rapid.IntRange(0, 3).Draw(t, "earlierListening?") == 0 {
+		c.Decoy = &live.Opts{ActiveSense: rapid.Bool().Draw(t, "dAS"), TimeCode: rapid.Bool().Draw(t, "dTC"), SysEx: rapid.Bool().Draw(t, "dSX"),
+			BufSize: uint32(rapid.SampledFrom([]int{0, 3, 5, 8}).Draw(t, "dBuf"))}
+	}
 	return c
 }
 
@@ -126,7 +133,21 @@ func run(c Case) (res ev.Result) {
 		res.Violation = s
 		return
 	}
-	obs, failed = live.RunListen(c.Chunks, opts)
+	runListen := live.RunListen
+	if c.Decoy != nil {
+		var loop *live.Loop
+		if p := ev.Try(func() { loop = live.NewLoop() }); p != "" {
+			res.Violation = p
+			return
+		}
+		if _, failed := loop.Run([]live.Chunk{{Data: []byte{0xF0, 0x01, 0x02, 0x03, 0x04, 0x05, 0xF7, 0x90, 0x01, 0x02}, Delta: 1}}, *c.Decoy); failed != "" {
+			res.Violation = "earlier listening on the same port: " + failed
+			return
+		}
+		runListen = loop.Run
+		res.Classes = append(res.Classes, "second-listening-with-other-options")
+	}
+	obs, failed = runListen(c.Chunks, opts)
 	if s := compare("midi.ListenTo on testdrv", obs, failed, false); s != "" {
 		res.Violation = s
 		return
@@ -147,7 +168,7 @@ func dedup(in []string) []string {
 }
 
 var streams = ev.NewCheck("C04", "streams",
-	"rapid: 1..40 messages (channel voice of all kinds and data ranges, MTC, SPP, song select, tune request, sysex of total length 2..buffer size with buffer size in {3,4,5,8,16,33,64,1024 default}, real-time F8 FA FB FC FE FF), serialised by a reference sender with chosen running-status elisions and real-time bytes inserted at arbitrary byte positions (also inside sysex), cut into Send/EachMessage calls (one call, one byte per call, random pieces incl. empty) with deltas 0..5000 ms; oracle = expected sequence by construction cross-checked with the reference receiver; observed at drivers.Reader (exact time stamps) and at midi.ListenTo on a testdrv loopback with all options on (time stamps relative to a sync message); non-trivial = a real status elision, a real-time byte strictly inside a message, or a chunk boundary strictly inside a message; distinct by case hash",
+	"rapid: 1..40 messages (channel voice of all kinds and data ranges, MTC, SPP, song select, tune request, sysex of total length 2..buffer size with buffer size in {3,4,5,8,16,33,64,1024 default}, real-time F8 FA FB FC FE FF), serialised by a reference sender with chosen running-status elisions and real-time bytes inserted at arbitrary byte positions (also inside sysex), cut into Send/EachMessage calls (one call, one byte per call, random pieces incl. empty) with deltas 0..5000 ms; oracle = expected sequence by construction cross-checked with the reference receiver; observed at drivers.Reader (exact time stamps) and at midi.ListenTo on a testdrv loopback with all options on (time stamps relative to a sync message), in one case of four as the second listening on a port that was listened to before with other options and another buffer size; non-trivial = a real status elision, a real-time byte strictly inside a message, or a chunk boundary strictly inside a message; distinct by case hash",
 	genCase, run)
 
 func TestPropStreams(t *testing.T) { streams.Rapid(t, 4000, 100000) }
